@@ -546,6 +546,10 @@ impl<E: Elem> Engine<E> {
         let val_lo = with_ledger(|l| l.next_val);
         let z_created_before = with_ledger(|l| l.z_created);
         let pre_model = self.model.clone();
+        let pre_cap_exact = {
+            let v: &Vec<E> = self.arr.as_ref();
+            v.capacity() == v.len()
+        };
 
         let mut m2 = self.model.clone();
         let mut taken: Vec<E> = Vec::new();
@@ -1095,7 +1099,7 @@ impl<E: Elem> Engine<E> {
             }
             self.resync();
             self.note_state(step, &fault_name);
-            self.probe_step(step, &fault_name, &pre_model, fired, &counts);
+            self.probe_step(step, &fault_name, &pre_model, fired, pre_cap_exact);
             self.step_no += 1;
             return Ok(());
         }
@@ -1143,13 +1147,13 @@ impl<E: Elem> Engine<E> {
             return Err(self.viol(k, d, step, None));
         }
         self.note_state(step, &None);
-        self.probe_step(step, &None, &pre_model, false, &counts);
+        self.probe_step(step, &None, &pre_model, false, pre_cap_exact);
         self.step_no += 1;
         Ok(())
     }
 
     /// Reach probes: "this rare condition was hit", computed from arguments and shape.
-    fn probe_step(&mut self, step: &Step, fault: &Option<String>, pre: &Model, fired: bool, _counts: &[u32; N_KINDS]) {
+    fn probe_step(&mut self, step: &Step, fault: &Option<String>, pre: &Model, fired: bool, pre_cap_exact: bool) {
         let (pc, pr) = pre.size();
         let vec_exact = {
             let v: &Vec<E> = self.arr.as_ref();
@@ -1196,6 +1200,15 @@ impl<E: Elem> Engine<E> {
         }
         if step.op.is_insert() && fault.is_none() && vec_exact {
             self.stats.probe("insert_result_exact_capacity");
+        }
+        if step.op.is_insert() && fault.is_none() && pre_cap_exact && pre.cols > 0 {
+            self.stats.probe("insert_into_exact_capacity_buffer");
+        }
+        if step.op.is_remove() && pre_cap_exact && pre.cols > 0 {
+            self.stats.probe("remove_from_exact_capacity_buffer");
+        }
+        if pre.cols >= 9 || pre.num_rows() >= 9 {
+            self.stats.probe("large_shape_step");
         }
         if fired {
             match &step.op {
